@@ -62,10 +62,23 @@ func codecShowArgs(a [][]byte) string {
 
 var codecMgr *server.Manager
 
-func codecOne(f []string) (res string) {
+// An encoded proposal is kept by raft (Entry.Data is the very slice ToBytes returned) until the entry is committed and applied, while
+// later proposals are being encoded.  The engine therefore holds the bytes of each line back for `codecDelay` further lines and only
+// then copies, reports and decodes them: an encoder that reuses its buffer shows up as a wrong wire/decoded field of the EARLIER line.
+const codecDelay = 4
+
+type codecPending struct {
+	line string
+	kind string
+	wire []byte // the slice as returned by the real encoder: never copied before it is reported
+	res  string // final outcome when there is nothing to hold back (FILTERED, PANIC, BAD-LINE)
+}
+
+func codecEncode(line string, f []string) (pd codecPending) {
+	pd = codecPending{line: line, kind: f[0]}
 	defer func() {
 		if e := recover(); e != nil {
-			res = "PANIC"
+			pd.res = "PANIC"
 			if os.Getenv("VERIF_SHOWPANIC") != "" {
 				fmt.Fprintln(os.Stderr, "panic:", e)
 			}
@@ -82,23 +95,36 @@ func codecOne(f []string) (res string) {
 		}
 		_, wire, filtered := server.VerifClusterRoundTrip(context.Background(), codecMgr, argv)
 		if filtered {
-			return "FILTERED"
+			pd.res = "FILTERED"
+			return
 		}
-		var p raftexample.RaftProposal
-		if err := json.Unmarshal(wire, &p); err != nil {
-			return "UNMARSHAL-ERROR"
-		}
-		return hx(wire) + " " + codecShowArgs(p.Args)
+		pd.wire = wire
 	case "CP":
 		p0 := &raftexample.RaftProposal{Data: string(unhex(f[1])), ID: string(unhex(f[2])), Args: codecArgs(f[3:])}
-		wire := p0.ToBytes()
-		var p raftexample.RaftProposal
-		if err := json.Unmarshal(wire, &p); err != nil {
-			return "UNMARSHAL-ERROR"
-		}
-		return hx(wire) + " " + codecShowArgs(p.Args) + " " + hx([]byte(p.Data)) + " " + hx([]byte(p.ID))
+		pd.wire = p0.ToBytes()
+	default:
+		pd.res = "BAD-LINE"
 	}
-	return "BAD-LINE"
+	return
+}
+
+func codecFinish(pd codecPending) (res string) {
+	if pd.res != "" {
+		return pd.res
+	}
+	defer func() {
+		if e := recover(); e != nil {
+			res = "PANIC"
+		}
+	}()
+	var p raftexample.RaftProposal
+	if err := json.Unmarshal(pd.wire, &p); err != nil {
+		return "UNMARSHAL-ERROR " + hx(pd.wire)
+	}
+	if pd.kind == "CW" {
+		return hx(pd.wire) + " " + codecShowArgs(p.Args)
+	}
+	return hx(pd.wire) + " " + codecShowArgs(p.Args) + " " + hx([]byte(p.Data)) + " " + hx([]byte(p.ID))
 }
 
 func runCodec(args []string) {
@@ -107,13 +133,24 @@ func runCodec(args []string) {
 	out := bufio.NewWriter(os.Stdout)
 	defer out.Flush()
 	config.Configures.Databases = 1
+	var queue []codecPending
+	emit := func(pd codecPending) {
+		fmt.Fprintf(out, "%s => %s\n", pd.line, codecFinish(pd))
+		out.Flush()
+	}
 	for in.Scan() {
 		line := in.Text()
 		f := strings.Fields(line)
 		if len(f) == 0 {
 			continue
 		}
-		fmt.Fprintf(out, "%s => %s\n", line, codecOne(f))
-		out.Flush()
+		queue = append(queue, codecEncode(line, f))
+		if len(queue) > codecDelay {
+			emit(queue[0])
+			queue = queue[1:]
+		}
+	}
+	for _, pd := range queue {
+		emit(pd)
 	}
 }
